@@ -58,7 +58,7 @@ def main():
     claimed = [p for p in sorted(CHECKS) if os.path.exists("/verif/coq/Props/%s.v" % p)]
     checks = [chk(p, *CHECKS[p]) for p in claimed]
     m = {"version": 1,
-         "setup_cmd": "cd /verif/coq && coq_makefile -f _CoqProject -o Makefile && timeout 3000 make -j16",
+         "setup_cmd": "/venv/bin/python /verif/harness/extract.py && cd /verif/coq && coq_makefile -f _CoqProject -o Makefile && timeout 3000 make -j16",
          "hooks": {"guard": "ASYNCSTDLIB_VERIF", "enable": "no hooks: all instrumentation is harness-side (private attributes are only read)",
                    "baseline_off_cmd": "cd /repo && /venv/bin/python -m pytest -q -p no:cacheprovider --timeout=900", "source_commits": [], "add_only": True},
          "engines": [{"name": "coq-calculus", "path": "/verif/coq", "serves_properties": [p for p in claimed if CHECKS[p][3] == "coq-calculus"],
